@@ -115,6 +115,8 @@ def obs_sx(o):
         return ["run", o["solver"], params_sx(o.get("params"))]
     if k == "initpop":
         return ["initpop", params_sx(o.get("params"))]
+    if k == "rkstep":
+        return ["rkstep", params_sx(o.get("params")), o["t"], o["dt"], None if o.get("x") is None else list(o["x"])]
     if k == "qcomps":
         return ["qcomps", o.get("name") or "-", strata_sx(o.get("filt")), bool(o.get("inf", False))]
     if k == "qflows":
